@@ -93,6 +93,10 @@ func (i *Interpreter) Interpret(statements []ast.Stmt, isRepl bool) []interface{
 
 func (i *Interpreter) eval(expr ast.Expr, env *environment.Environment, isRepl bool) (interface{}, *ControlFlowSignal) {
 	// fmt.Printf("%T\n", expr)
+	if utils.HadRuntimeError {
+		// A runtime error has been reported: nothing else is evaluated.
+		return nil, &ControlFlowSignal{Type: ControlFlowNone, LineNumber: 0}
+	}
 	switch e := expr.(type) {
 	case *ast.PropertyAssignment:
 		objectValue, signal := i.eval(e.Object, env, isRepl)
@@ -285,6 +289,10 @@ func (i *Interpreter) eval(expr ast.Expr, env *environment.Environment, isRepl b
 				return nil, signal
 			}
 			arguments = append(arguments, argValue)
+		}
+
+		if utils.HadRuntimeError {
+			return nil, &ControlFlowSignal{Type: ControlFlowNone, LineNumber: 0}
 		}
 
 		// Step 3: Call the function and return its result
